@@ -105,6 +105,10 @@ class Check(Property):
             ops += [{"op": "gs", "f": "base", "u": [[n, "1/1"]], "system": name} for n in probes] + [{"op": "reset"}]
             self.bump("user-defined system")
             out.append({"kind": "newsys", "name": name, "rules": rules, "probes": probes, "ops": ops})
+        # cyclic use of groups is refused and leaves everything usable (cycles of length 1, 2, 3, 4 among new groups)
+        for i in range(8 if self.tier == "quick" else 100):
+            self.bump("cyclic group use")
+            out.append({"kind": "cycle", "n": rng.choice([1, 2, 3, 3, 4]), "units": rng.sample(P.mult, 4), "i": i, "ops": []})
         # edit sequences
         for i in range(25 if self.tier == "quick" else 400):
             steps = []
@@ -195,6 +199,8 @@ class Check(Property):
                 names = list(un._units)
                 return names[0] if len(names) == 1 else str(un)
             return [capture(run)]
+        if k == "cycle":
+            return []
         if k == "newsys":
             r = regs.fresh("fraction")
             lines = [f"@system {c['name']} using international"] + [f"    {n}:{o}" if o else f"    {n}" for n, o in c["rules"]] + ["@end"]
@@ -239,6 +245,8 @@ class Check(Property):
         return outs
 
     def same(self, c, io, mo):
+        if c["kind"] == "cycle":
+            return True
         for i, m in zip(io, mo):
             if i == {"ok": None} or m == {"ok": None}:
                 if ("err" in i) != ("err" in m):
@@ -264,6 +272,8 @@ class Check(Property):
         v = []
         u = regs.ureg("fraction")
         k = c["kind"]
+        if k == "cycle":
+            return self.oracle_cycle(c)
         if k == "newsys":
             return self.oracle_newsys(c)
         if k == "base":
@@ -373,6 +383,43 @@ class Check(Property):
                 v.append(f"C14 ureg.sys.{c['s']}.{c['item']} is {got}, the system's variant / plain unit is {want}")
         elif k == "seq":
             v += self.oracle_seq(c)
+        return v
+
+    def oracle_cycle(self, c):
+        v = []
+        r = regs.fresh("float")
+        n = c["n"]
+        names = [f"CY{c['i']}_{j}" for j in range(n)]
+        groups = []
+        for nm, un in zip(names, c["units"]):
+            g = r.Group(nm)
+            g.add_units(un)
+            groups.append(g)
+        tag = f"C14 groups {names} used in a cycle of length {n}"
+        try:
+            for j in range(n - 1):
+                groups[j].add_groups(names[j + 1])
+        except Exception as exc:  # noqa: BLE001
+            return [f"{tag}: building the chain raised {type(exc).__name__}: {exc}"]
+        try:
+            groups[-1].add_groups(names[0])
+            v.append(f"{tag}: closing the cycle was accepted")
+        except ValueError:
+            pass
+        except BaseException as exc:  # noqa: BLE001
+            v.append(f"{tag}: closing the cycle raised {type(exc).__name__} instead of ValueError")
+        for j, g in enumerate(groups):
+            try:
+                got = set(g.members)
+                want = set(c["units"][j:n])
+                if got != want:
+                    v.append(f"{tag}: members of {names[j]} are {sorted(got)} after the refused cycle, expected {sorted(want)}")
+            except BaseException as exc:  # noqa: BLE001
+                v.append(f"{tag}: members of {names[j]} raised {type(exc).__name__} after the refused cycle")
+        try:
+            set(r.get_group("root").members)
+        except BaseException as exc:  # noqa: BLE001
+            v.append(f"{tag}: root.members raised {type(exc).__name__} after the refused cycle")
         return v
 
     def oracle_newsys(self, c):
